@@ -21,7 +21,10 @@ use crate::move_into_uci_move;
 
 pub struct Search<T: UciTx, H: Heuristic, M: MoveOrder> {
     uci_tx: Arc<T>,
+    #[cfg(not(inkayaku_verif))]
     search_rx: Receiver<SearchMessage>,
+    #[cfg(inkayaku_verif)]
+    search_rx: crate::engine::verif::SimReceiver<SearchMessage>,
     heuristic: H,
     move_order: M,
 
@@ -33,6 +36,8 @@ pub struct Search<T: UciTx, H: Heuristic, M: MoveOrder> {
 
 impl<T: UciTx, H: Heuristic, M: MoveOrder> Search<T, H, M> {
     pub fn new(uci_tx: Arc<T>, rx: Receiver<SearchMessage>, heuristic: H, move_order: M, options: EngineOptions) -> Self {
+        #[cfg(inkayaku_verif)]
+        let rx = crate::engine::verif::SimReceiver::new(rx);
         Self { uci_tx, search_rx: rx, state: SearchState::default(), options, flags: SearchFlags::default(), params: SearchParams::default(), heuristic, move_order }
     }
 
